@@ -58,6 +58,22 @@ def get_engine(name):
 
 # ---- worker side -----------------------------------------------------------
 
+_pinned = [False]
+
+
+def _worker_init(counter):
+    # one worker process per core, pinned: all simulated threads of a worker
+    # then hand the baton over on one CPU (no cross-CPU wake-ups)
+    try:
+        with counter.get_lock():
+            i = counter.value
+            counter.value += 1
+        cpus = sorted(os.sched_getaffinity(0))
+        os.sched_setaffinity(0, {cpus[i % len(cpus)]})
+    except Exception:
+        pass
+
+
 def _batch(args):
     engine_name, prop, tier, master, start, count, report_props = args
     faulthandler.dump_traceback_later(600, exit=True)
@@ -325,11 +341,8 @@ def verify_replay_fresh(path):
 
 # ---- the check -------------------------------------------------------------------------------
 
-def run_check(prop, tier, engine_name, plan, level='exploration', extra=None):
-    """plan: {'runs': N, 'cap_s': seconds, 'batch': n, 'report': [props]}"""
-    master = int(os.environ.get('VERIF_SEED', '0') or 0)
-    jobs = int(os.environ.get('VERIF_JOBS', '0') or 0) or min(16, os.cpu_count() or 1)
-    eng = get_engine(engine_name)
+def explore(prop, tier, engine_name, plan, master, jobs):
+    """Fan the seeded runs of one engine out over forked workers."""
     t0 = time.time()
     report_props = plan.get('report', [prop])
     total = plan['runs']
@@ -339,10 +352,13 @@ def run_check(prop, tier, engine_name, plan, level='exploration', extra=None):
     timed_out = False
     harness_fatal = None
     ctx = multiprocessing.get_context('fork')
-    tasks = [(engine_name, prop, tier, master, s, min(batch, total - s), report_props)
+    gen_prop = plan.get('gen_prop', prop)
+    tasks = [(engine_name, gen_prop, tier, master, s, min(batch, total - s), report_props)
              for s in range(0, total, batch)]
-    done_batches = 0
-    with cf.ProcessPoolExecutor(max_workers=jobs, mp_context=ctx) as ex:
+    counter = ctx.Value('i', 0)
+    with cf.ProcessPoolExecutor(max_workers=jobs, mp_context=ctx,
+                                initializer=_worker_init,
+                                initargs=(counter,)) as ex:
         pending = set()
         it = iter(tasks)
         try:
@@ -360,13 +376,13 @@ def run_check(prop, tier, engine_name, plan, level='exploration', extra=None):
                 for f in done:
                     try:
                         merge(agg, f.result())
-                        done_batches += 1
                     except BaseException as e:   # noqa
                         harness_fatal = 'worker died: %r' % (e,)
                 if harness_fatal:
                     break
-                stop = time.time() - t0 > cap or len(agg['violations']) >= 20
-                if stop and time.time() - t0 > cap:
+                over = time.time() - t0 > cap
+                stop = over or len(agg['violations']) >= 20
+                if over:
                     timed_out = True
                 while not stop and len(pending) < jobs * 2:
                     t = next(it, None)
@@ -374,7 +390,6 @@ def run_check(prop, tier, engine_name, plan, level='exploration', extra=None):
                         break
                     pending.add(ex.submit(_batch, t))
                 if stop:
-                    # let the in-flight batches finish, submit nothing more
                     it = iter(())
         finally:
             if harness_fatal:
@@ -383,24 +398,56 @@ def run_check(prop, tier, engine_name, plan, level='exploration', extra=None):
                         p.kill()
                     except Exception:
                         pass
-    wall_explore = time.time() - t0
+    agg['wall'] = time.time() - t0
+    agg['timed_out'] = timed_out
+    agg['harness_fatal'] = harness_fatal
+    agg['planned'] = total
+    return agg
 
-    # ---- triage ----
+
+DEFAULT_RULE = (
+    'one evaluation = one simulated run of a seeded scenario under a seeded '
+    'schedule; distinct = distinct trace digest (crc32 over the sequence of '
+    '(thread id, scheduling-point tag)); non-trivial = at least one scheduling '
+    'point offered >= 2 runnable threads AND (>= 1 injected fault fired OR >= 2 '
+    'S3 requests were in flight at once OR a cancel/interrupt was issued)')
+
+
+def run_check(prop, tier, stages, level='exploration'):
+    """stages: [(engine name, plan)], plan = {'runs','cap_s','batch',...}"""
+    master = int(os.environ.get('VERIF_SEED', '0') or 0)
+    jobs = int(os.environ.get('VERIF_JOBS', '0') or 0) or min(16, os.cpu_count() or 1)
+    t0 = time.time()
     known = load_known()
     out_lines = []
-    new_violations = []
+    new_total = 0
     known_hits = {}
-    agg['violations'].sort(key=lambda v: v['index'])
-    for v in agg['violations']:
-        k = match_known(v, known)
-        if k is not None:
-            known_hits.setdefault(k['id'], [k, 0])[1] += 1
-        else:
-            new_violations.append(v)
     replay_paths = []
+    harness_fatal = None
+    harness_list = []
+    stage_cov = []
     min_stats = None
-    if new_violations:
-        # one replay per (property, class), first occurrence
+    tot_runs = 0
+    tot_distinct = 0
+    samples = []
+    rules = []
+    real, stub, assumptions = [], [], []
+    explore_wall = 0.0
+    for engine_name, plan in stages:
+        eng = get_engine(engine_name)
+        agg = explore(prop, tier, engine_name, plan, master, jobs)
+        explore_wall += agg['wall']
+        harness_fatal = harness_fatal or agg['harness_fatal']
+        harness_list += agg['harness']
+        new_violations = []
+        agg['violations'].sort(key=lambda v: v['index'])
+        for v in agg['violations']:
+            k = match_known(v, known)
+            if k is not None:
+                known_hits.setdefault(k['id'], [k, 0])[1] += 1
+            else:
+                new_violations.append(v)
+        new_total += len(new_violations)
         seen = set()
         for v in new_violations:
             key = (v['property'], v['class'], str((v.get('sig') or {}).get('variant')))
@@ -411,7 +458,6 @@ def run_check(prop, tier, engine_name, plan, level='exploration', extra=None):
             path = write_replay(engine_name, v, sc, choices, res, min_stats)
             ok, log = verify_replay_fresh(path) if res else (False, 'not reproducible')
             if not ok:
-                # fall back to the unminimised original
                 path = write_replay(engine_name, v, v['scenario'], v['choices'],
                                     eng.execute(v['scenario'], v['choices'], lenient=True),
                                     {'note': 'minimised form did not replay; original kept'})
@@ -419,78 +465,94 @@ def run_check(prop, tier, engine_name, plan, level='exploration', extra=None):
             if ok:
                 replay_paths.append((v, path))
                 out_lines.append('VIOLATION property=%s replay=%s' % (v['property'], path))
-                out_lines.append('  class=%s seed=%d :: %s' % (v['class'], v['seed'],
-                                                               v['message'][:600]))
+                out_lines.append('  engine=%s class=%s seed=%d :: %s'
+                                 % (engine_name, v['class'], v['seed'], v['message'][:600]))
             else:
                 harness_fatal = harness_fatal or (
                     'violation %s/%s seed %d did not replay in a fresh interpreter: %s'
                     % (v['property'], v['class'], v['seed'], log[-500:]))
+        hours = max(agg['wall'], 1e-9) / 3600.0
+        tot_runs += agg['runs']
+        tot_distinct += len(agg['nontrivial_digests'])
+        samples += [dict(s, engine=engine_name) for s in agg['samples'][:2]]
+        rule = getattr(eng, 'RULE', DEFAULT_RULE)
+        rules.append('[%s] %s' % (engine_name, rule))
+        for x in getattr(eng, 'REAL', []):
+            if x not in real:
+                real.append(x)
+        for x in getattr(eng, 'STUB', []):
+            if x not in stub:
+                stub.append(x)
+        for x in getattr(eng, 'ASSUMPTIONS', []):
+            if x not in assumptions:
+                assumptions.append(x)
+        stage_cov.append({
+            'engine': engine_name,
+            'evaluations': agg['runs'],
+            'distinct_nontrivial': len(agg['nontrivial_digests']),
+            'distinct_digests_all': len(agg['digests']),
+            'runs_with_real_concurrency': agg['multi'],
+            'scheduling_steps': agg['steps'],
+            'context_switches': agg['switches'],
+            'simulated_seconds': round(agg['sim_time'], 3),
+            'distinct_abstract_states': len(agg['states']),
+            'runs_per_hour': int(agg['runs'] / hours),
+            'seeds_per_hour': int(agg['runs'] / hours),
+            'faults_configured_fired': {k: {'configured': c, 'fired': f}
+                                        for k, (c, f) in sorted(agg['fault_kinds'].items())},
+            'fault_kinds_never_fired': sorted(k for k, (c, f) in agg['fault_kinds'].items()
+                                              if c and not f),
+            'probes': dict(sorted(agg['probes'].items())),
+            'scheduler_strategies': agg['strategies'],
+            'cross_hits_other_properties': agg['cross'],
+            'planned_runs': agg['planned'], 'stopped_by_time_cap': agg['timed_out'],
+            'violations_reported': len(new_violations),
+            'wall_s': round(agg['wall'], 2),
+        })
     for kid, (k, n) in sorted(known_hits.items()):
         out_lines.append('KNOWN-FINDING: property=%s %s (%s; seen %d times in this run)'
                          % (k['property'], k['what'], kid, n))
-
     wall = time.time() - t0
-    hours = max(wall_explore, 1e-9) / 3600.0
+    hours = max(explore_wall, 1e-9) / 3600.0
     cov = {
-        'evaluations': agg['runs'],
-        'distinct_nontrivial': len(agg['nontrivial_digests']),
-        'rule': eng.RULE if hasattr(eng, 'RULE') else (
-            'one evaluation = one simulated run of a seeded scenario under a seeded '
-            'schedule; distinct = distinct trace digest (crc32 over the sequence of '
-            '(thread id, scheduling-point tag)); non-trivial = at least one scheduling '
-            'point offered >= 2 runnable threads AND (>= 1 injected fault fired OR >= 2 '
-            'S3 requests were in flight at once OR a cancel/interrupt was issued)'),
-        'samples': agg['samples'][:3] or [{'note': 'no non-trivial sample captured'}],
-        'distinct_digests_all': len(agg['digests']),
-        'runs_with_real_concurrency': agg['multi'],
-        'scheduling_steps': agg['steps'],
-        'context_switches': agg['switches'],
-        'simulated_seconds': round(agg['sim_time'], 3),
-        'distinct_abstract_states': len(agg['states']),
-        'runs_per_hour': int(agg['runs'] / hours),
-        'seeds_per_hour': int(agg['runs'] / hours),
-        'faults_configured_fired': {k: {'configured': c, 'fired': f}
-                                    for k, (c, f) in sorted(agg['fault_kinds'].items())},
-        'fault_kinds_never_fired': sorted(k for k, (c, f) in agg['fault_kinds'].items()
-                                          if c and not f),
-        'probes': dict(sorted(agg['probes'].items())),
-        'scheduler_strategies': agg['strategies'],
-        'cross_hits_other_properties': agg['cross'],
-        'real_components': getattr(eng, 'REAL', []),
-        'stub_components': getattr(eng, 'STUB', []),
+        'evaluations': tot_runs,
+        'distinct_nontrivial': tot_distinct,
+        'rule': ' || '.join(rules),
+        'samples': samples[:4] or [{'note': 'no non-trivial sample captured'}],
+        'runs_per_hour': int(tot_runs / hours),
+        'seeds_per_hour': int(tot_runs / hours),
+        'scheduling_steps': sum(s['scheduling_steps'] for s in stage_cov),
+        'simulated_seconds': round(sum(s['simulated_seconds'] for s in stage_cov), 3),
+        'stages': stage_cov,
+        'real_components': real, 'stub_components': stub,
         'known_findings_seen': {kid: n for kid, (k, n) in known_hits.items()},
-        'planned_runs': total, 'stopped_by_time_cap': timed_out,
         'jobs': jobs, 'repo_tree': repo_tree_hash(),
-        'harness_errors': agg['harness'][:5],
+        'harness_errors': harness_list[:5],
         'minimisation': min_stats,
     }
-    if extra:
-        cov.update(extra)
     ev = {
         'property_id': prop, 'tier': tier, 'seed': master, 'level': level,
         'coverage': cov,
-        'assumptions': getattr(eng, 'ASSUMPTIONS', [
+        'assumptions': assumptions or [
             'SimS3 models the S3 operations and botocore body/stream protocol from '
             'botocore source; real HTTP is not exercised',
             'pre-emption happens at synchronisation, I/O and callback points, not '
-            'between arbitrary bytecodes']),
+            'between arbitrary bytecodes'],
         'wall_s': round(wall, 2),
-        'violations': len(new_violations),
+        'violations': new_total,
     }
     os.makedirs(os.path.join(VERIF, 'evidence'), exist_ok=True)
     with open(os.path.join(VERIF, 'evidence', '%s.json' % prop), 'w') as f:
         json.dump(ev, f, indent=1, default=_jsonable)
-
-    print('%s tier=%s seed=%d engine=%s runs=%d distinct_nontrivial=%d wall=%.1fs '
+    print('%s tier=%s seed=%d engines=%s runs=%d distinct_nontrivial=%d wall=%.1fs '
           '(%.0f runs/h) violations=%d known=%d harness=%d'
-          % (prop, tier, master, engine_name, agg['runs'],
-             len(agg['nontrivial_digests']), wall, agg['runs'] / hours,
-             len(new_violations), sum(n for _, n in known_hits.values()),
-             len(agg['harness'])))
+          % (prop, tier, master, '+'.join(e for e, _ in stages), tot_runs,
+             tot_distinct, wall, tot_runs / hours, new_total,
+             sum(n for _, n in known_hits.values()), len(harness_list)))
     for ln in out_lines:
         print(ln)
-    if harness_fatal or agg['harness']:
-        print('HARNESS-ERROR: %s' % (harness_fatal or json.dumps(agg['harness'][0])[:1500]))
+    if harness_fatal or harness_list:
+        print('HARNESS-ERROR: %s' % (harness_fatal or json.dumps(harness_list[0])[:1500]))
         return EXIT_HARNESS
     if replay_paths:
         return EXIT_VIOLATION
